@@ -34,7 +34,7 @@ import z3
 from segvc import lib
 from segvc.core import BOOL, BYTES, CLASSES, INT, OBJ, STR, ArrT, DequeT, H, RefT, Sym, Unsupported, forall, register_class
 from segvc.interp import AwaitableVal, Builtin, ClassVal, ExcVal, NS, PyExc
-from segvc.unit import Case, ClassSpec, Contract, LemmaUnit, MethodUnit
+from segvc.unit import Case, ClassSpec, Contract, LemmaUnit, LoopSpec, MethodUnit
 
 ASYNCIO = "anyio/_backends/_asyncio.py"
 SYNC = "anyio/_core/_synchronization.py"
@@ -627,3 +627,232 @@ class Aclose(SockUnit):
 
 
 UNITS = [SeqLemma, ConnectionMade, DataReceived, EofReceived, ConnectionLost, PauseWriting, ResumeWriting, GuardEnter, GuardExit, Receive, Send, SendEof, Aclose]
+
+
+# ---- UNIXSocketStream: the raw-socket loops --------------------------------------------------------------------------------
+
+register_class("RawSock", {"$ksent": BYTES, "$closed": BOOL, "$shut_wr": BOOL}, kind="env")
+RS = RefT("RawSock")
+register_class("RawMixin", {"__raw_socket": RS, "_receive_guard": RG, "_send_guard": RG, "_closing": BOOL}, source=(ASYNCIO, "_RawSocketMixin"))
+register_class("UNIXSocketStream", {"__raw_socket": RS, "_receive_guard": RG, "_send_guard": RG, "_closing": BOOL}, source=(ASYNCIO, "UNIXSocketStream"), bases=("RawMixin",))
+UX = "UNIXSocketStream"
+
+WAIT_IO = Contract(
+    "_RawSocketMixin._wait_until_readable/_writable",
+    requires=lambda h, a: [],
+    cases=[
+        Case("ready_or_closed", when=lambda pre, a: True, ensures=lambda pre, post, a, ret: []),
+        Case("cancelled", when=lambda pre, a: True, raises="CancelledError", ensures=lambda pre, post, a, ret: []),
+    ],
+    bind=lambda ip, args, kwargs: types.SimpleNamespace(self=args[0].t, cur=ip.ctx.cur.t),
+    suspends=True,
+)
+
+
+def ux_send_loop_inv(ip, env):
+    u = ip.ctx.unit
+    h = H(ip.st)
+    s = u.self_val.t
+    sock = h.f(UX, "__raw_socket", s)
+    view = ip.term(env.vars["view"], BYTES)
+    item = u.item.t
+    done = z3.Length(item) - z3.Length(view)
+    return [
+        ("the_kernel_has_been_given_exactly_the_part_of_the_item_before_the_view", z3.And(done >= 0, view == z3.SubString(item, done, z3.Length(view)), h.f("RawSock", "$ksent", sock) == z3.Concat(u.seg0.f("RawSock", "$ksent", sock), z3.SubString(item, 0, done)))),
+        ("the_send_guard_is_held_by_this_call", h.f("ResourceGuard", "_guarded", h.f(UX, "_send_guard", s))),
+    ]
+
+
+def ux_recv_loop_inv(ip, env):
+    u = ip.ctx.unit
+    h = H(ip.st)
+    s = u.self_val.t
+    return [("the_receive_guard_is_held_by_this_call", h.f("ResourceGuard", "_guarded", h.f(UX, "_receive_guard", s)))]
+
+
+def ux_after_havoc(ip, env):
+    u = ip.ctx.unit
+    u.reassume(ip, ip.ctx.loop_entry)
+
+
+class UnixUnit(MethodUnit):
+    props = ("C18",)
+    spec = ClassSpec(UX)
+    trusted = ("E1", "E10", "A-seq", "A-wait")
+    contract = None
+    contracts = {"_RawSocketMixin._wait_until_readable": WAIT_IO, "_RawSocketMixin._wait_until_writable": WAIT_IO}
+
+    def props_of(self, name):
+        return {"C18"}
+
+    def __init__(self):
+        super().__init__()
+        self.globals = {
+            "AsyncIOBackend": ClassVal("AsyncIOBackend"),
+            "get_running_loop": Builtin("get_running_loop", lambda ip: Sym(z3.Int("the_loop"), OBJ)),
+            "memoryview": Builtin("memoryview", lambda ip, x: x),
+            "socket": NS("socket", {"SHUT_WR": 1}),
+        }
+
+    def contract_for(self, qualname, ctx):
+        c = self.contracts.get(qualname)
+        if c is None:
+            return None
+
+        class Aw:  # a plain function that returns an awaitable: the contract applies where it is awaited
+            suspends = False
+
+            def apply(self_, ip, f, args, kwargs):
+                return AwaitableVal("contract", lambda: c.apply(ip, f, args, kwargs))
+
+        return Aw()
+
+    def class_getattr(self, ip, cv, attr):
+        if cv.name == "AsyncIOBackend" and attr == "checkpoint":
+            return Builtin("checkpoint", lambda ip: AwaitableVal("checkpoint"))
+        return NotImplemented
+
+    def model_getattr(self, ip, obj, attr):
+        st = ip.st
+        if isinstance(obj, Sym) and obj.ty is RS:
+            if attr == "recv":
+                def recv(ip, n):
+                    self.recv_calls.append(n)
+                    k = ip.ctx.decide(4, "recv")
+                    if k == 1:
+                        lib.raise_("BlockingIOError", "would block")
+                    if k == 2:
+                        e = ExcVal(ConnectionResetError, ())
+                        self.os_error = e
+                        raise PyExc(e)
+                    d = Sym(st.fresh("received", z3.StringSort()), BYTES)
+                    st.assume(z3.Length(d.t) <= ip.term(n, INT))  # E10: recv(n) returns at most n bytes
+                    st.assume((z3.Length(d.t) == 0) if k == 3 else (z3.Length(d.t) >= 1))
+                    self.recv_result = d
+                    return d
+
+                return Builtin("socket.recv", recv)
+            if attr == "send":
+                def send(ip, view):
+                    k = ip.ctx.decide(3, "send")
+                    if k == 1:
+                        lib.raise_("BlockingIOError", "would block")
+                    if k == 2:
+                        e = ExcVal(BrokenPipeError, ())
+                        self.os_error = e
+                        raise PyExc(e)
+                    v = lib.bytes_term(ip, view)
+                    n = st.fresh("bytes_sent", z3.IntSort())
+                    st.assume(z3.And(n >= 1, n <= z3.Length(v)))  # E10: the kernel takes a non-empty prefix of the buffer
+                    st.put("RawSock", "$ksent", obj.t, z3.Concat(st.get("RawSock", "$ksent", obj.t), z3.SubString(v, 0, n)))
+                    return Sym(n, INT)
+
+                return Builtin("socket.send", send)
+            if attr == "shutdown":
+                return Builtin("socket.shutdown", lambda ip, how: st.put("RawSock", "$shut_wr", obj.t, z3.BoolVal(True)))
+        return NotImplemented
+
+    def override_method(self, ip, obj, attr):
+        if isinstance(obj, Sym) and obj.ty is RG and attr == "__enter__":
+            f = ip.find_method("ResourceGuard", "__enter__")[0]
+
+            def enter(ip):
+                r = ip.call_function(f, [obj], {})  # the real ResourceGuard.__enter__ (may raise BusyResourceError)
+                self.entered_guard = obj.t
+                return r
+
+            return Builtin("ResourceGuard.__enter__", enter)
+        return NotImplemented
+
+    def assume_state(self, ip):
+        ip.st.use_cvc5 = True
+        self.reassume(ip, None)
+        ip.st.assume(slice_lemma(ip.st))
+
+    def reassume(self, ip, entry):
+        h = H(ip.st)
+        s = self.self_val.t
+        al = h.arr("$", "alloc")
+        sock, rg, sg = h.f(UX, "__raw_socket", s), h.f(UX, "_receive_guard", s), h.f(UX, "_send_guard", s)
+        ip.st.assume(z3.And(s > 0, sock > 0, rg > 0, sg > 0, rg != sg, z3.Select(al, sock), z3.Select(al, rg), z3.Select(al, sg)))
+        if entry is not None:
+            for f_ in ("__raw_socket", "_receive_guard", "_send_guard"):
+                ip.st.assume(h.f(UX, f_, s) == entry.f(UX, f_, s))
+
+    def on_entry(self, ip, pre, a):
+        self.seg0 = pre
+        self.recv_calls, self.recv_result, self.os_error = [], None, None
+        self.entered_guard = None
+
+    def resume_assumptions(self, ip, what, payload):
+        h, b = H(ip.st), self.before
+        s = self.self_val.t
+        self.reassume(ip, b)
+        sock = b.f(UX, "__raw_socket", s)
+        # nobody else writes to this socket's send direction / holds our guards while we wait (the guards enforce it)
+        ip.st.assume(h.f("RawSock", "$ksent", sock) == b.f("RawSock", "$ksent", sock))
+        for g in (b.f(UX, "_receive_guard", s), b.f(UX, "_send_guard", s)):
+            ip.st.assume(z3.Implies(b.f("ResourceGuard", "_guarded", g), h.f("ResourceGuard", "_guarded", g)))
+        ip.st.assume(z3.Implies(b.f(UX, "_closing", s), h.f(UX, "_closing", s)))
+
+
+class UnixSend(UnixUnit):
+    method = "send"
+    loops = {("UNIXSocketStream.send", 0): LoopSpec(ux_send_loop_inv, modifies=None, after_havoc=ux_after_havoc, local_types={"view": BYTES, "bytes_sent": INT})}
+
+    def make_args(self, ip):
+        self.item = Sym(z3.String("item"), BYTES)
+        return [self.item], types.SimpleNamespace()
+
+    def on_exit(self, ip, pre, a, exc, ret):
+        s = a.self
+        post = H(ip.st)
+        nm = "UNIXSocketStream.send"
+        sock, sg = pre.f(UX, "__raw_socket", s), pre.f(UX, "_send_guard", s)
+        name = exc.pycls.__name__ if exc is not None and exc.pycls is not None else None
+        g_pre = pre.f("ResourceGuard", "_guarded", sg)
+        if name == "BusyResourceError":
+            ip.ctx.oblige(f"{nm}/post:a_second_writer_is_refused_and_nothing_is_sent", z3.And(post.f("ResourceGuard", "_guarded", sg), post.f("RawSock", "$ksent", sock) == self.before.f("RawSock", "$ksent", sock) if getattr(self, "before", None) is not None else z3.BoolVal(True)), "post")
+            return
+        if self.entered_guard is not None:
+            ip.ctx.oblige(f"{nm}/post:the_send_guard_is_released_on_every_path", z3.Not(post.f("ResourceGuard", "_guarded", sg)), "post")
+        if exc is None:
+            ip.ctx.oblige(f"{nm}/post:the_kernel_has_been_given_the_whole_item_once_in_order", post.f("RawSock", "$ksent", sock) == z3.Concat(self.seg0.f("RawSock", "$ksent", sock), self.item.t), "post")
+        elif name in ("ClosedResourceError", "BrokenResourceError"):
+            ip.ctx.oblige(f"{nm}/post:a_socket_error_is_ClosedResourceError_on_a_closing_stream_and_BrokenResourceError_otherwise", z3.And(z3.BoolVal(self.os_error is not None), post.f(UX, "_closing", s) == z3.BoolVal(name == "ClosedResourceError")), "post")
+
+
+class UnixReceive(UnixUnit):
+    method = "receive"
+    loops = {("UNIXSocketStream.receive", 0): LoopSpec(ux_recv_loop_inv, modifies=None, after_havoc=ux_after_havoc)}
+
+    def make_args(self, ip):
+        self.max_bytes = Sym(z3.Int("max_bytes"), INT)
+        return [self.max_bytes], types.SimpleNamespace()
+
+    def on_exit(self, ip, pre, a, exc, ret):
+        s = a.self
+        post = H(ip.st)
+        nm = "UNIXSocketStream.receive"
+        rg = pre.f(UX, "_receive_guard", s)
+        mb = self.max_bytes.t
+        name = exc.pycls.__name__ if exc is not None and exc.pycls is not None else None
+        if name == "ValueError":
+            ip.ctx.oblige(f"{nm}/post:ValueError_only_for_max_bytes_below_one_and_nothing_is_read", z3.And(mb < 1, z3.BoolVal(not self.recv_calls)), "post")
+            return
+        if name == "BusyResourceError":
+            ip.ctx.oblige(f"{nm}/post:a_second_reader_is_refused_and_nothing_is_read", z3.BoolVal(not self.recv_calls), "post")
+            return
+        if self.entered_guard is not None:
+            ip.ctx.oblige(f"{nm}/post:the_receive_guard_is_released_on_every_path", z3.Not(post.f("ResourceGuard", "_guarded", rg)), "post")
+        ip.ctx.oblige(f"{nm}/post:every_read_of_the_socket_asks_for_exactly_max_bytes", z3.BoolVal(all(n is self.max_bytes for n in self.recv_calls)), "post")
+        if exc is None:
+            r = ip.term(ret, BYTES)
+            ip.ctx.oblige(f"{nm}/post:returns_the_non_empty_data_the_socket_gave_unchanged_at_most_max_bytes", z3.And(z3.BoolVal(self.recv_result is not None and isinstance(ret, Sym) and ret.t.eq(self.recv_result.t)), z3.Length(r) >= 1, z3.Length(r) <= mb), "post")
+        elif name == "EndOfStream":
+            ip.ctx.oblige(f"{nm}/post:end_of_stream_only_for_an_empty_read", z3.BoolVal(self.recv_result is not None) if self.recv_result is None else z3.Length(self.recv_result.t) == 0, "post")
+        elif name in ("ClosedResourceError", "BrokenResourceError"):
+            ip.ctx.oblige(f"{nm}/post:a_socket_error_is_ClosedResourceError_on_a_closing_stream_and_BrokenResourceError_otherwise", z3.And(z3.BoolVal(self.os_error is not None), post.f(UX, "_closing", s) == z3.BoolVal(name == "ClosedResourceError")), "post")
+
+
+UNITS += [UnixSend, UnixReceive]
